@@ -559,11 +559,45 @@ def check_run(p, b, con, target, res, viol, key, exc=None):
             viol.add("C05.x_evaluated_earlier", key)
 
 
-def run_one(p, viol, want, noise_seed, fault_at=None, fault=None):
+def run_one(p, viol, want, noise_seed, fault_at=None, fault=None, gpfault=None, gpnan=None):
     key = "k%d:%s:%s:D%d%s" % (p["k"], p["geo"], p["mode"], p["D"], (":fault%s@%d" % (fault, fault_at)) if fault else "")
+    if gpfault:
+        key += ":gpfit-fails@" + ",".join(str(i) for i in sorted(gpfault))
     mon = Monitors(viol, want)
     target = Target(p, np.random.default_rng(noise_seed), fault_at, fault)
     mon.install(key)
+    nviol0 = len(viol)
+    if gpnan:
+        # C09: the GP prediction at a single query point (incumbent / target update) is non-finite at the k-th such call
+        import gpyreg as _g
+        orig_pred = _g.GP.predict
+        pc = {"n": 0}
+
+        def pred(g, x, *a_, **k_):
+            mu, s2 = orig_pred(g, x, *a_, **k_)
+            if np.shape(x)[0] == 1:
+                pc["n"] += 1
+                if pc["n"] in gpnan:
+                    mu = mu * np.nan
+            return mu, s2
+
+        mon.patch(_g.GP, "predict", pred)
+        key += ":gp-prediction-nan@" + ",".join(str(i) for i in sorted(gpnan))
+    if gpfault:
+        # C16: the k-th GP hyper-parameter fit of the run fails with a linear-algebra error (gpyreg's Cholesky)
+        import gpyreg
+        orig_fit = gpyreg.GP.fit
+        st_ = {"n": 0, "hit": 0}
+
+        def fit(g, *a_, **k_):
+            i = st_["n"]
+            st_["n"] += 1
+            if i in gpfault:
+                st_["hit"] += 1
+                raise np.linalg.LinAlgError("injected: matrix is not positive definite (fit #%d)" % i)
+            return orig_fit(g, *a_, **k_)
+
+        mon.patch(gpyreg.GP, "fit", fit)
     b = res = con = None
     exc = None
     try:
@@ -576,6 +610,13 @@ def run_one(p, viol, want, noise_seed, fault_at=None, fault=None):
     finally:
         mon.restore()
     info = {"key": key, "calls": target.n, "counts": mon.counts, "exc": None if exc is None else type(exc).__name__}
+    if gpfault:
+        info["gp_fits"], info["gp_fit_faults_hit"] = st_["n"], st_["hit"]
+        if exc is not None and st_["hit"]:
+            tb = traceback.extract_tb(exc.__traceback__)
+            inner = [f for f in tb if "pybads" in f.filename]
+            viol.add("C16.optimize_completes_despite_fit_failures", key, exc=type(exc).__name__ + ": " + str(exc)[:200], faults_hit=st_["hit"],
+                     where=("%s:%d" % (inner[-1].filename.split("/pybads/")[-1], inner[-1].lineno)) if inner else None)
     if exc is not None:
         if fault is None:
             tb = traceback.extract_tb(exc.__traceback__)
@@ -595,6 +636,10 @@ def run_one(p, viol, want, noise_seed, fault_at=None, fault=None):
             check_run(p, b, con, target, res, viol, key, exc)
         except Exception as ex:  # noqa: BLE001
             info["oracle_error"] = repr(ex)[:300]
+    if gpfault and st_["hit"]:
+        broken = sorted(set(v["clause"] for v in viol[nviol0:] if not v["clause"].startswith(("C16.", "C17.no_repeat", "C09."))))
+        if broken:
+            viol.add("C16.other_guarantees_hold_after_fit_failures", key, clauses=broken)
     return info
 
 
@@ -605,6 +650,8 @@ def main():
     ap.add_argument("--seed", type=int, default=0)
     ap.add_argument("--faults", type=int, default=0)
     ap.add_argument("--kinds", default=None)
+    ap.add_argument("--gpfaults", type=int, default=0)
+    ap.add_argument("--rare", type=int, default=0)
     ap.add_argument("--obligation", default=None)
     ap.add_argument("--input", default=None)
     a = ap.parse_args()
@@ -624,11 +671,59 @@ def main():
                 p = make_problem(rng, 2, "sym", "specified_noise", False, 100 + j)
             at = int(rng.integers(1, 40))
             infos.append(run_one(p, viol, a.prop, a.seed * 1000 + 500 + j, fault_at=at, fault=f))
+    for j in range(a.rare):
+        # C09: rare internal histories - every ES candidate infeasible (tiny feasible ball around the start point), repeated
+        # observation of a logged point under specified noise (D = 1), a non-finite GP prediction at the incumbent, noisy runs that
+        # stop in their first iteration or whose budget barely exceeds the initial design
+        kind = j % 5
+        if kind == 0:
+            p = make_problem(rng, int(rng.integers(1, 4)), "sym", ["det", "declared_noise"][j // 5 % 2], False, 300 + j)
+            p["cons"] = ("ball", float(rng.choice([0.02, 0.05, 0.2])))
+            p["x0"] = (p["plb"] + p["pub"]) / 2.0
+            infos.append(run_one(p, viol, a.prop, a.seed * 1000 + 700 + j))
+        elif kind == 1:
+            p = make_problem(rng, 1, ["sym", "tight", "log"][j // 5 % 3], "specified_noise", False, 300 + j)
+            infos.append(run_one(p, viol, a.prop, a.seed * 1000 + 700 + j))
+        elif kind == 2:
+            p = make_problem(rng, int(rng.integers(1, 4)), "sym", ["declared_noise", "det", "specified_noise"][j // 5 % 3], False, 300 + j)
+            if p["mode"] == "det":
+                p["opts"]["uncertain_incumbent"] = True
+            infos.append(run_one(p, viol, a.prop, a.seed * 1000 + 700 + j, gpnan={int(rng.integers(1, 12))}))
+        elif kind == 3:
+            p = make_problem(rng, int(rng.integers(1, 4)), "sym", ["declared_noise", "specified_noise"][j // 5 % 2], False, 300 + j)
+            p["opts"]["max_iter"] = 1
+            infos.append(run_one(p, viol, a.prop, a.seed * 1000 + 700 + j))
+        else:
+            p = make_problem(rng, int(rng.integers(1, 4)), "sym", ["declared_noise", "specified_noise", "auto_noise"][j // 5 % 3], False, 300 + j)
+            p["opts"]["max_fun_evals"] = int(p["D"] + 2 + rng.integers(0, 4))
+            p["opts"]["noise_final_samples"] = int(rng.choice([0, 1]))
+            infos.append(run_one(p, viol, a.prop, a.seed * 1000 + 700 + j))
+    for j in range(a.gpfaults):
+        # single faults, runs of 2-4 consecutive faults, scattered multiple faults; every noise mode
+        p = ps[j % len(ps)] if ps else make_problem(rng, 2, "sym", "det", False, j)
+        if j % 3 == 2:
+            p = make_problem(rng, int(rng.integers(1, 4)), "sym", "specified_noise", False, 200 + j)
+        k0 = int(rng.integers(0, 5))  # a run makes only a handful of hyper-parameter fits (most refits are posterior updates)
+        shape = j % 4
+        if shape == 0:
+            sched = {k0}
+        elif shape == 1:
+            sched = set(range(k0, k0 + int(rng.integers(2, 5))))
+        elif shape == 2:
+            sched = set(int(x) for x in rng.integers(0, 9, size=int(rng.integers(2, 5))))
+        else:
+            sched = set(range(k0, k0 + 2)) | {k0 + 4}
+        base = run_one(p, Viol(), a.prop, a.seed * 1000 + 900 + j)
+        if base["exc"] is not None:
+            # the problem does not complete even without an injected failure (a C09 matter): not a C16 observation
+            infos.append({"key": base["key"] + ":gpfault-skipped", "skipped": "run fails without injected failures: " + str(base["exc"]), "gp_fits": 0, "gp_fit_faults_hit": 0, "exc": base["exc"]})
+            continue
+        infos.append(run_one(p, viol, a.prop, a.seed * 1000 + 900 + j, gpfault=sched))
     pref = None if a.prop == "all" else a.prop + "."
     vs = [v for v in viol if pref is None or v["clause"].startswith(pref)]
     others = sorted(set(v["clause"] for v in viol if v not in vs))
     print(json.dumps({"status": "violation" if vs else "ok", "violations": jsonable(vs), "runs": len(infos), "other_clauses_fired": others,
-                      "evaluations": len(infos), "samples": infos[:3], "secs": round(time.time() - t0, 1)}))
+                      "evaluations": len(infos), "samples": infos[:3] + [i for i in infos if "gp_fits" in i][:40], "secs": round(time.time() - t0, 1)}))
 
 
 if __name__ == "__main__":
